@@ -602,7 +602,15 @@ func (c *Ctx) checkFileAppenderSemantics(r *Report, ro *Roles, rule string) map[
 				}
 			}
 			for _, e := range append(append([]fsEvent{}, opens...), fails...) {
-				if e.flag&os.O_APPEND == 0 || e.flag&os.O_TRUNC != 0 || e.flag&os.O_CREATE == 0 || e.flag&(os.O_WRONLY|os.O_RDWR) == 0 {
+				// the flag values of the analysed platform (they differ between linux, darwin and windows), not the checker's
+				oc := func(n string, host int) int {
+					if v, ok := c.osConst(n); ok {
+						return int(v)
+					}
+					return host
+				}
+				fApp, fTrunc, fCreate, fW := oc("O_APPEND", os.O_APPEND), oc("O_TRUNC", os.O_TRUNC), oc("O_CREATE", os.O_CREATE), oc("O_WRONLY", os.O_WRONLY)|oc("O_RDWR", os.O_RDWR)
+				if e.flag&fApp == 0 || e.flag&fTrunc != 0 || e.flag&fCreate == 0 || e.flag&fW == 0 {
 					fail("%s: %s is opened with flags %#x (want O_CREATE|O_WRONLY|O_APPEND, never O_TRUNC)", stp.what, e.path, e.flag)
 				}
 			}
